@@ -275,6 +275,19 @@ def model_save_quantized_weights(model, filename=None, custom_objects={}):
       elif any(isinstance(layer, t) for t in [QSimpleRNN, QLSTM, QGRU]):
         qs = layer.get_quantizers()[:-1]
         ws = layer.get_weights()
+      elif layer.__class__.__name__ == "QBatchNormalization":
+        # get_quantizers() always lists the [gamma, beta, mean, variance,
+        # inverse] quantizers, but get_weights() has no gamma when scale is
+        # False and no beta when center is False. Pair each weight with its
+        # own quantizer, like add_bn_fusing_weights does.
+        qs = []
+        if layer.scale:
+          qs.append(layer.gamma_quantizer_internal)
+        if layer.center:
+          qs.append(layer.beta_quantizer_internal)
+        qs.append(layer.mean_quantizer_internal)
+        qs.append(layer.variance_quantizer_internal)
+        ws = layer.get_weights()
       else:
         qs = layer.get_quantizers()
         ws = layer.get_weights()
